@@ -464,6 +464,15 @@ func (cc *connectStreamingClientConn) Receive(msg any) error {
 	// converting the bytes to a message, an error reading from the network, or
 	// just an EOF. We're going to return it to the user, but we also want to
 	// setResponseError so Send errors out.
+	if errors.Is(err, io.EOF) && !errors.Is(err, errSpecialEnvelope) {
+		// The response body ended before the server sent the end-of-stream
+		// message, so the stream was cut short: that's not a clean end.
+		err = errorf(
+			CodeInternal,
+			"protocol error: stream ended without end-of-stream message: %w",
+			io.ErrUnexpectedEOF,
+		)
+	}
 	cc.duplexCall.SetError(err)
 	return err
 }
